@@ -448,7 +448,10 @@ pub fn exec_proj<S: Sc + BaseFloat + crate::machine::Exec>(op: &str, fm: &str, a
         ("hom_proj", [T(inner), T(form), I(kc), I(deg), rest @ ..]) => {
             let k = SCALES[(*kc as usize) % SCALES.len()];
             let ks: S = NumCast::from(k).unwrap();
-            let scaled: Vec<Val<S>> = rest.iter().map(|v| scale_val(v, ks)).collect();
+            // form suffix "@s": the scalar arguments are scaled instead of the compound ones
+            let (form, scalars) = match form.strip_suffix("@s") { Some(fm0) => (fm0.to_string(), true), None => (form.clone(), false) };
+            let form = &form;
+            let scaled: Vec<Val<S>> = rest.iter().map(|v| if scalars { if let N(x) = v { N(*x * ks) } else { v.clone() } } else { scale_val(v, ks) }).collect();
             let base = <S as crate::machine::Exec>::exec(inner, form, rest)?;
             let got = <S as crate::machine::Exec>::exec(inner, form, &scaled)?;
             fn unwrap_opt<S: Sc>(v: &Val<S>) -> (u8, Option<&Val<S>>) { match v { Val::OSome(b) => (1, Some(&**b)), Val::ONone => (2, None), Val::Panic => (3, None), x => (0, Some(x)) } }
@@ -549,6 +552,126 @@ pub fn exec_proj<S: Sc + BaseFloat + crate::machine::Exec>(op: &str, fm: &str, a
             let nn = f(*n);
             let h = m * Vector4::new(c(asp * nn * t), c(nn * t), -*n, S::one());
             Tup(vec![B(true), I(ceil_i((f(h.y) / f(h.w) - 1.0).abs() / eps)), I(ceil_i((f(h.x) / f(h.w) - 1.0).abs() / eps))])
+        }
+        // C02 next to singular: the last column of the exact invertible matrix M is replaced natively by
+        // (first column + half the second) + g * (last column); by multilinearity the determinant is g det(M).
+        // <<| det - g det M | in units of eps * n! * max|entry|^n, an inverse exists, residual of M inv(M) per unit of condition>>
+        ("near_sing_proj", [mv, I(gc)]) => {
+            let table: &[f64] = &[1.0e-3, 1.0e-6, 1.0e-9, 1.0e-12];
+            let g = table[(*gc as usize) % table.len()];
+            let gs: S = NumCast::from(g).unwrap();
+            let half: S = NumCast::from(0.5f64).unwrap();
+            let (d0, d1, amax, n, resid, some): (f64, f64, f64, i32, f64, bool) = match mv {
+                M2(m) => { let mut a = *m; a.y = a.x + m.y * gs; let i = a.invert();
+                    let am = maxabs(&m2v(&a).iter().map(|x| f(*x)).collect::<Vec<f64>>());
+                    let rs = match &i { Some(i) => { let p = m2v(&(a * *i)); let im = maxabs(&m2v(i).iter().map(|x| f(*x)).collect::<Vec<f64>>());
+                        (0..4).map(|j| (f(p[j]) - if j % 3 == 0 { 1.0 } else { 0.0 }).abs()).fold(0.0f64, f64::max) / (eps * am * im * 2.0) } None => 0.0 };
+                    (f(m.determinant()), f(a.determinant()), am, 2, rs, i.is_some()) }
+                M3(m) => { let mut a = *m; a.z = a.x + m.y * half + m.z * gs; let i = a.invert();
+                    let am = maxabs(&m3v(&a).iter().map(|x| f(*x)).collect::<Vec<f64>>());
+                    let rs = match &i { Some(i) => { let p = m3v(&(a * *i)); let im = maxabs(&m3v(i).iter().map(|x| f(*x)).collect::<Vec<f64>>());
+                        (0..9).map(|j| (f(p[j]) - if j % 4 == 0 { 1.0 } else { 0.0 }).abs()).fold(0.0f64, f64::max) / (eps * am * im * 3.0) } None => 0.0 };
+                    (f(m.determinant()), f(a.determinant()), am, 3, rs, i.is_some()) }
+                M4(m) => { let mut a = *m; a.w = a.x + m.y * half + m.w * gs; let i = a.invert();
+                    let am = maxabs(&m4v(&a).iter().map(|x| f(*x)).collect::<Vec<f64>>());
+                    let rs = match &i { Some(i) => { let p = m4v(&(a * *i)); let im = maxabs(&m4v(i).iter().map(|x| f(*x)).collect::<Vec<f64>>());
+                        (0..16).map(|j| (f(p[j]) - if j % 5 == 0 { 1.0 } else { 0.0 }).abs()).fold(0.0f64, f64::max) / (eps * am * im * 4.0) } None => 0.0 };
+                    (f(m.determinant()), f(a.determinant()), am, 4, rs, i.is_some()) }
+                _ => return None,
+            };
+            let fact = [1.0, 1.0, 2.0, 6.0, 24.0][n as usize];
+            Tup(vec![I(ceil_i((d1 - g * d0).abs() / (eps * fact * amax.powi(n)))), B(some), I(ceil_i(resid))])
+        }
+        // C06 with an axis a hair off a coordinate axis: n' = n cos(tau) + m sin(tau) (n, m exact orthonormal, tau = 1e-9 .. 1e-3)
+        // is built natively; everything else as small_rot_proj (the reference uses the axis actually built)
+        ("tilt_rot_proj", [T(ty), T(route), V3(n), V3(m), V3(v), I(dc), I(tc)]) => {
+            let table: &[f64] = &[1.0e-9, 1.0e-8, 1.0e-6, 1.0e-3];
+            let tau: S = NumCast::from(table[(*tc as usize) % table.len()]).unwrap();
+            let n2 = *n * tau.cos() + *m * tau.sin();
+            let n2 = n2 / n2.magnitude();
+            return exec_proj::<S>("small_rot_proj", fm, &[T(ty.clone()), T(route.clone()), V3(n2), V3(*v), I(*dc)]);
+        }
+        // C09 in two dimensions over magnitudes: dir and up scaled natively by 10^de and 10^ue; the matrix has orthonormal
+        // columns, the first along dir, the second on the side of up.  <<orthonormality, first column off dir, side>> in eps / sign
+        ("look2_mag_proj", [T(kind), V2(d0), V2(u0), I(ue), I(de)]) => {
+            let ten: S = NumCast::from(10.0f64).unwrap();
+            let (dir, up) = (*d0 * ten.powi(*de as i32), *u0 * ten.powi(*ue as i32));
+            let m: Matrix2<S> = match kind.as_str() {
+                "Matrix2" => Matrix2::look_at(dir, up),
+                "Basis2" => basis2_mat(&<Basis2<S> as Rotation>::look_at(dir, up)),
+                _ => return None,
+            };
+            let c = [[f(m.x.x), f(m.x.y)], [f(m.y.x), f(m.y.y)]];
+            let mut ortho = 0.0f64;
+            for i in 0..2 { for j in 0..2 { let e: f64 = (0..2).map(|k| c[i][k] * c[j][k]).sum::<f64>() - if i == j { 1.0 } else { 0.0 }; ortho = ortho.max(e.abs()); } }
+            let (dx, dy) = (f(dir.x), f(dir.y));
+            let dn = (dx * dx + dy * dy).sqrt().max(1.0e-300);
+            let off = ((c[0][0] - dx / dn).powi(2) + (c[0][1] - dy / dn).powi(2)).sqrt();
+            let side = c[1][0] * f(up.x) + c[1][1] * f(up.y);
+            Tup(vec![I(ceil_i(ortho / eps)), I(ceil_i(off / eps)), I(if side >= 0.0 { 1 } else { -1 })])
+        }
+        // C10, planar with a focal point very far away (tiny fovy, large height): the homogeneous w still vanishes at the
+        // focal point z = +(h/2) cot(fovy/2), and the window of height h at z = 0 goes to y = +-1.  <<built, |w| at the focal point, y>> in eps
+        ("planar_far_proj", [I(fc), I(hc), N(n), N(fa)]) => {
+            let fovs: &[f64] = &[1.0e-3, 1.0e-6, 1.0e-9, 1.0e-12];
+            let hs: &[f64] = &[1.0, 1.0e3, 1.0e6];
+            let (fov, h) = (fovs[(*fc as usize) % fovs.len()], hs[(*hc as usize) % hs.len()]);
+            let c = |x: f64| -> S { NumCast::from(x).unwrap() };
+            let m: Matrix4<S> = cgmath::planar(Rad(c(fov)), c(1.5), c(h), *n, *fa);
+            let half: S = c(fov) / c(2.0);
+            let d = h / 2.0 / f(half.tan());
+            let wf = m * Vector4::new(S::zero(), S::zero(), c(d), S::one());
+            let top = m * Vector4::new(S::zero(), c(h / 2.0), S::zero(), S::one());
+            Tup(vec![B(true), I(ceil_i(f(wf.w).abs() / eps)), I(ceil_i((f(top.y) / f(top.w) - 1.0).abs() / eps))])
+        }
+        // C14 far outside [0, 1]: lerp(a, b, t) = a + (b - a) t for every amount t; b = a (1 + 1e-9) built natively, t up to 1e12
+        ("lerp_far_proj", [x, I(tc)]) => {
+            let ts: &[f64] = &[1.0e3, 1.0e6, 1.0e9, 1.0e12, -1.0e6];
+            let t = ts[(*tc as usize) % ts.len()];
+            let tt: S = NumCast::from(t).unwrap();
+            let k: S = NumCast::from(1.0 + 1.0e-9f64).unwrap();
+            let (av, bv, rv): (Vec<f64>, Vec<f64>, Vec<f64>) = match x {
+                V3(a) => { let b = *a * k; let r = a.lerp(b, tt); (vec![f(a.x), f(a.y), f(a.z)], vec![f(b.x), f(b.y), f(b.z)], vec![f(r.x), f(r.y), f(r.z)]) }
+                V2(a) => { let b = *a * k; let r = a.lerp(b, tt); (vec![f(a.x), f(a.y)], vec![f(b.x), f(b.y)], vec![f(r.x), f(r.y)]) }
+                Q(a) => { let b = *a * k; let r = a.lerp(b, tt); (qv(a).to_vec(), qv(&b).to_vec(), qv(&r).to_vec()) }
+                M2(a) => { let b = *a * k; let r = a.lerp(b, tt); (m2v(a).iter().map(|x| f(*x)).collect(), m2v(&b).iter().map(|x| f(*x)).collect(), m2v(&r).iter().map(|x| f(*x)).collect()) }
+                _ => return None,
+            };
+            // b - a is exact (the operands are within a factor of two of each other); the rest is one product and one sum
+            let dev = (0..av.len()).map(|i| { let e = av[i] + (bv[i] - av[i]) * t; (rv[i] - e).abs() / (eps * (av[i].abs() + ((bv[i] - av[i]) * t).abs()).max(1.0e-300)) }).fold(0.0f64, f64::max);
+            Tup(vec![I(ceil_i(dev)), B(true)])
+        }
+        // C18 on matrices that are nearly symmetric / diagonal / the identity: element (c, r) of the exact matrix, scaled by
+        // 10^e, is moved natively by a few ulps or by a small absolute amount; the predicate must equal the conjunction of the
+        // scalar ulps-comparisons the property names.  <<agrees ?>>
+        ("pred_near_proj", [T(pred), mv, I(cc), I(rr), I(code), I(e)]) => {
+            let ten: S = NumCast::from(10.0f64).unwrap();
+            let sc = ten.powi(*e as i32);
+            let bump = |x: S| -> S { match code { 0 => x + x.abs() * S::epsilon() * NumCast::from(2.0f64).unwrap(), 1 => x + x.abs() * S::epsilon() * NumCast::from(16.0f64).unwrap(),
+                                                  2 => x + NumCast::from(1.0e-9f64).unwrap(), 3 => x + NumCast::from(3.0e-7f64).unwrap(), 4 => x + S::epsilon() / NumCast::from(4.0f64).unwrap(), _ => x } };
+            let ue = |a: S, b: S| a.ulps_eq(&b, S::default_epsilon(), S::default_max_ulps());
+            let (got, want): (bool, bool) = match mv {
+                M4(m0) => { let mut m = *m0 * sc; m[*cc as usize][*rr as usize] = bump(m[*cc as usize][*rr as usize]);
+                    let z = S::zero();
+                    match pred.as_str() {
+                        "is_symmetric" => (m.is_symmetric(), (0..4).all(|c| (0..4).all(|r| ue(m[c][r], m[r][c])))),
+                        "is_diagonal" => (m.is_diagonal(), (0..4).all(|c| (0..4).all(|r| c == r || ue(m[c][r], z)))),
+                        _ => return None } }
+                M3(m0) => { let mut m = *m0 * sc; m[*cc as usize][*rr as usize] = bump(m[*cc as usize][*rr as usize]);
+                    let z = S::zero();
+                    match pred.as_str() {
+                        "is_symmetric" => (m.is_symmetric(), (0..3).all(|c| (0..3).all(|r| ue(m[c][r], m[r][c])))),
+                        "is_diagonal" => (m.is_diagonal(), (0..3).all(|c| (0..3).all(|r| c == r || ue(m[c][r], z)))),
+                        _ => return None } }
+                M2(m0) => { let mut m = *m0 * sc; m[*cc as usize][*rr as usize] = bump(m[*cc as usize][*rr as usize]);
+                    let z = S::zero();
+                    match pred.as_str() {
+                        "is_symmetric" => (m.is_symmetric(), (0..2).all(|c| (0..2).all(|r| ue(m[c][r], m[r][c])))),
+                        "is_diagonal" => (m.is_diagonal(), (0..2).all(|c| (0..2).all(|r| c == r || ue(m[c][r], z)))),
+                        _ => return None } }
+                _ => return None,
+            };
+            Tup(vec![B(got == want)])
         }
         // C10 with far many orders of magnitude beyond near: far = near * ratio, ratio = 1e3 .. 1e12; the near plane still
         // goes to -1 and the far plane to +1, to a few eps (no 1/g amplification here).  <<built ?, near plane, far plane>> in eps
@@ -684,7 +807,9 @@ pub fn exec_proj<S: Sc + BaseFloat + crate::machine::Exec>(op: &str, fm: &str, a
             };
             let x0 = f(*x);
             let turns = |r: f64| { let k = (x0 - r) / full; ceil_i((k - k.round()).abs() / 1.0e-6) };
-            Tup(vec![B(n >= 0.0 && n <= full), B(s >= -half && s <= half), I(turns(n)), I(turns(s))])
+            // the remainder is exact: x - k * full_turn (one rounding, fused) is the result itself
+            let exact = |r: f64| { let k = ((x0 - r) / full).round(); ceil_i(((-k).mul_add(full, x0) - r).abs() / (eps * full)) };
+            Tup(vec![B(n >= 0.0 && n <= full), B(s >= -half && s <= half), I(turns(n)), I(turns(s)), I(exact(n)), I(exact(s))])
         }
         ("turn_div_exact", [T(unit), I(k)]) => {
             let kk: S = NumCast::from(*k).unwrap();
